@@ -1,12 +1,15 @@
 #!/bin/bash
 # Builds the framework offline from files on disk: vinstr, the instrumented overlay, vcheck.
 set -eu
-cd /verif
+ROOT=${VERIF_ROOT:-/verif}
+REPO=${VERIF_REPO:-/repo}
+cd $ROOT
 export GOFLAGS=-mod=mod GOPROXY=off
 unset GOSUMDB || true
 mkdir -p build evidence
-(cd engine/vinstr && go build -o /verif/build/vinstr .)
-build/vinstr -repo /repo -shims /verif/engine/shims -inject /verif/engine/inject -out /verif/build/instr
-cp /repo/go.sum harness/go.sum
-(cd harness && go build -overlay /verif/build/instr/overlay.json -o /verif/build/vcheck ./cmd/vcheck)
+(cd engine/vinstr && go build -o $ROOT/build/vinstr .)
+build/vinstr -repo $REPO -shims $ROOT/engine/shims -inject $ROOT/engine/inject -out $ROOT/build/instr
+sed "s#=> /repo#=> $REPO#" harness/go.mod > build/go.mod
+cp $REPO/go.sum build/go.sum
+(cd harness && go build -modfile=$ROOT/build/go.mod -overlay $ROOT/build/instr/overlay.json -o $ROOT/build/vcheck ./cmd/vcheck)
 echo "setup ok"
